@@ -243,6 +243,12 @@ return run(xs, a, b)
     for i in range(spec['n'] + len(directed)):
         xs = [rnd.choice(P) for _ in range(rnd.randint(3, 9))]
         a = rnd.choice(xs) if rnd.random() < 0.6 else rnd.choice(P)
+        if i < spec['n'] and i % 5 == 3:
+            # arrays drawn from TWO neighbouring types only (numbers and booleans, numbers and strings, dates and numbers ...): the general
+            # order applies to them as to any mixed array
+            fam = rnd.choice([[True, False, 0, 1, 0.5, 2, -1, 1.0], ['a', 'B', '', 1, 10, '10'], [None, False, 0, ''], [[1], [True], [0.5], 1, True]])
+            xs = [rnd.choice(fam) for _ in range(rnd.randint(3, 8))]
+            a = rnd.choice(xs)
         if i >= spec['n']:
             # every pair of function / regex values (and containers of them) through all consumers: operators included
             a, b_directed = directed[i - spec['n']]
